@@ -393,3 +393,20 @@ def family(tier, entry=None):
                 c["entry"] = list(entry)
             out.append(c)
     return out
+
+
+def subset(tier, include, exclude=(), **extra):
+    """configurations of U whose feature names contain one of `include` and none of `exclude` (exact mode is always
+    excluded here: the exact-mode properties have their own families and most seams need the node_class seam)"""
+    out = []
+    for c in family(tier):
+        names = " ".join(c["features"])
+        if not any(f in names for f in include):
+            continue
+        if any(e in names for e in tuple(exclude) + ("exact",)):
+            continue
+        c = dict(c)
+        c.update(extra)
+        c["family"] = "U-subset"
+        out.append(c)
+    return out
